@@ -20,6 +20,13 @@ CHECKS = {
             'parsed document is the same at every indent, decoded value re-encodes',
             'trusts Python json and expat as the independent readers; XER strings restricted to XML 1.0 Char',
             'property-based testing (Hypothesis), round-trip + metamorphic (indent) oracle, independent parsers'),
+    'C11': ('hypothesis', 'exploration',
+            'generated modules with the interpreted constraint forms x valid values, each constrained component '
+            'replaced in turn by lb-1/lb/ub/ub+1 (sizes likewise, one character outside FROM): '
+            'encode(check_constraints=True) raises ConstraintsError iff the independent interpreter says a '
+            'non-extensible single-range/SIZE/FROM constraint is violated; same for decode(check_constraints=True)',
+            'trusts vlib/model/constraints.py (35 lines) as the reading of which constraints count',
+            'property-based testing (Hypothesis), differential against an independent constraint interpreter'),
     'C13': ('hypothesis stateful', 'exploration',
             'Hypothesis rule-based state machine over one parsed dictionary: histories of up to 6 compile_dict calls '
             '(8 codecs x numeric_enums) interleaved with eval(pformat(d)), deepcopy and pre_process_dict; after every '
